@@ -88,8 +88,8 @@ theorem cget_collapse (H : Bytes → Bytes) : ∀ (s : Node) (v : Bool) (key : L
 (in particular: the honest proof with any nodes altered, dropped, added, re-inserted under the hash of the altered bytes).
 Whatever `VerifyProof` answers for the root of a normal-form trie `s` without reporting an error is the truth about `s`;
 it never panics on such a database. -/
-theorem verify_sound (H : Bytes → Bytes) (Hinj : Function.Injective H) (decode : Bytes → Option CNode)
-    (hdec : ∀ s, WF s → decode (enc H s) = some (collapse H s))
+theorem verify_sound (H : Bytes → Bytes) (Hinj : Function.Injective H) (decode : Bytes → Dec CNode)
+    (hdec : ∀ s, WF s → decode (enc H s) = .ok (collapse H s))
     (db : Bytes → Option Bytes) (hdb : ∀ h b, db h = some b → H b = h) :
     ∀ (fuel : Nat) (s : Node) (key : List Nib), WF s → s.isValue = false → KeyAt false key →
       (∀ x, verify H decode db fuel (H (enc H s)) key = .value x → Model.Trie.get s key = some x) ∧
